@@ -4,12 +4,14 @@ import (
 	"fmt"
 	"os"
 	"path/filepath"
+	"runtime"
 	"sync"
 	"testing/synctest"
 	"time"
 
 	"pgregory.net/rapid"
 
+	"verif/harness/evid"
 	"verif/harness/hlref"
 	"verif/harness/hlsim"
 )
@@ -35,6 +37,21 @@ func worldBase() string {
 // inWorld runs body inside a synctest bubble with a freshly built world; the world is
 // torn down and its directory removed afterwards, also when body fails.
 func inWorld(rt *rapid.T, opt hlsim.Options, body func(rt *rapid.T, w *hlsim.World)) {
+	// A real-time watchdog, started outside the bubble (inside it the clock is fake): when a server goroutine is stuck on
+	// a lock somebody never released, or spins, the bubble never becomes quiescent and the case would hang until the test
+	// deadline.  Cases take seconds at most, also on a loaded machine; ten minutes is a wedge.
+	done := make(chan struct{})
+	defer close(done)
+	go func() {
+		select {
+		case <-done:
+		case <-time.After(worldWatchdog):
+			buf := make([]byte, 1<<20)
+			n := runtime.Stack(buf, true)
+			fmt.Fprintf(os.Stderr, "VERIF-HANG-SUSPECT\nVERIF-VIOLATION %s %s: the server did not become quiescent within %s of real time in one generated case (a goroutine waits for a lock that is never released, or spins)\n%s\n", evid.LastProp, evid.LastTest, worldWatchdog, buf[:n])
+			os.Exit(3)
+		}
+	}()
 	rapid.SyncTest(rt, func(rt *rapid.T) {
 		w, err := hlsim.New(worldBase(), opt)
 		if err != nil {
@@ -53,6 +70,14 @@ func settle(d time.Duration) {
 	time.Sleep(d)
 	synctest.Wait()
 }
+
+// worldWatchdog: 4 minutes in the quick tier (its jobs have 10-15 minute budgets), 10 minutes otherwise.
+var worldWatchdog = func() time.Duration {
+	if os.Getenv("VERIF_TIER") == "thorough" {
+		return 10 * time.Minute
+	}
+	return 4 * time.Minute
+}()
 
 var allAccess = hlref.AllAccess()
 
